@@ -120,7 +120,7 @@ def witnesses(ctx):
     ctx.tick("witnesses")
 
 
-XML_CLAUSES = {"later-scans-false", "err-precedence", "false-without-reason"}
+XML_CLAUSES = {"later-scans-false", "err-precedence", "false-without-reason", "read-ahead"}
 
 
 def xml_half(ctx):
